@@ -1,7 +1,7 @@
 (* C03 — property-path value nodes follow SPARQL 1.1 property-path semantics.
    This file contains only the property theorems; proofs live in Paths/PathProofs.v. *)
 From Coq Require Import List NArith Bool Relations.
-From Verif Require Import Base.SetList Base.Terms Paths.Path Paths.PathProofs.
+From Verif Require Import Base.SetList Base.Terms Paths.Path Paths.PathProofs Paths.PathAlgebra.
 Import ListNotations.
 
 (* For every well-formed path within the supported depth, every graph (cyclic or
@@ -43,4 +43,70 @@ Example C03_hypotheses_satisfiable :
   wf_path ex_p = true /\ fits ex_p 0 = true /\
   value_nodes ex_g ex_p (IRI 3) = Ok [IRI 3; IRI 1] /\
   value_nodes ex_g ex_p (IRI 77) = Ok [IRI 77].
+Proof. vm_compute. repeat split. Qed.
+
+(* ---- Algebraic laws of the evaluator (Paths/PathAlgebra.v): two paths that denote the same SPARQL
+   relation get the same value nodes. These are the rewritings a slip in the evaluator's direction
+   handling, sequence order or closure loops breaks. [same_answers g p p' x]: both evaluations
+   answer, without repetitions, with the same members. ---- *)
+Theorem C03_same_relation_same_answers : forall g p p' x,
+  (forall a b, path_rel g p a b <-> path_rel g p' a b) ->
+  wf_path p = true -> fits p 0 = true -> wf_path p' = true -> fits p' 0 = true ->
+  same_answers g p p' x.
+Proof. exact value_nodes_equiv. Qed.
+Print Assumptions C03_same_relation_same_answers.
+
+Theorem C03_double_inverse : forall g p x,
+  wf_path p = true -> fits (PInv (PInv p)) 0 = true -> fits p 0 = true -> same_answers g (PInv (PInv p)) p x.
+Proof. exact eval_inv_inv. Qed.
+Print Assumptions C03_double_inverse.
+
+Theorem C03_inverse_of_sequence : forall g qs x,
+  wf_path (PInv (PSeq qs)) = true -> fits (PInv (PSeq qs)) 0 = true ->
+  wf_path (PSeq (rev (map PInv qs))) = true -> fits (PSeq (rev (map PInv qs))) 0 = true ->
+  same_answers g (PInv (PSeq qs)) (PSeq (rev (map PInv qs))) x.
+Proof. exact eval_inv_seq. Qed.
+Print Assumptions C03_inverse_of_sequence.
+
+Theorem C03_inverse_of_alternative : forall g qs x,
+  wf_path (PInv (PAlt qs)) = true -> fits (PInv (PAlt qs)) 0 = true ->
+  wf_path (PAlt (map PInv qs)) = true -> fits (PAlt (map PInv qs)) 0 = true ->
+  same_answers g (PInv (PAlt qs)) (PAlt (map PInv qs)) x.
+Proof. exact eval_inv_alt. Qed.
+Print Assumptions C03_inverse_of_alternative.
+
+Theorem C03_one_or_more_unfolds : forall g q x,
+  wf_path q = true -> fits (PPlus q) 0 = true -> fits (PSeq [q; PStar q]) 0 = true ->
+  same_answers g (PPlus q) (PSeq [q; PStar q]) x.
+Proof. exact eval_plus_unfold. Qed.
+Print Assumptions C03_one_or_more_unfolds.
+
+Theorem C03_zero_or_more_unfolds : forall g q x,
+  wf_path q = true -> fits (PStar q) 0 = true -> fits (POpt (PPlus q)) 0 = true ->
+  same_answers g (PStar q) (POpt (PPlus q)) x.
+Proof. exact eval_star_unfold. Qed.
+Print Assumptions C03_zero_or_more_unfolds.
+
+Theorem C03_closure_of_inverse : forall g q x,
+  wf_path q = true -> fits (PStar (PInv q)) 0 = true ->
+  same_answers g (PStar (PInv q)) (PInv (PStar q)) x /\ same_answers g (PPlus (PInv q)) (PInv (PPlus q)) x.
+Proof. exact eval_closure_of_inverse. Qed.
+Print Assumptions C03_closure_of_inverse.
+
+(* Paths have no negation: more triples, never fewer value nodes. *)
+Theorem C03_monotone_in_the_data : forall g g' p x,
+  (forall t, In t g -> In t g') -> wf_path p = true -> fits p 0 = true ->
+  exists vs vs', value_nodes g p x = Ok vs /\ value_nodes g' p x = Ok vs' /\ forall y, In y vs -> In y vs'.
+Proof. exact eval_monotone. Qed.
+Print Assumptions C03_monotone_in_the_data.
+
+(* Non-vacuity of the laws: on the cyclic example graph the inverse of a sequence and its rewriting
+   both answer, non-trivially and alike. *)
+Example C03_laws_satisfiable :
+  let qs := [PPred 100; PPred 101] in
+  wf_path (PInv (PSeq qs)) = true /\ fits (PInv (PSeq qs)) 0 = true /\
+  wf_path (PSeq (rev (map PInv qs))) = true /\ fits (PSeq (rev (map PInv qs))) 0 = true /\
+  value_nodes ex_g (PInv (PSeq qs)) (IRI 3) = Ok [IRI 1] /\
+  value_nodes ex_g (PSeq (rev (map PInv qs))) (IRI 3) = Ok [IRI 1] /\
+  value_nodes ex_g (PPlus (PPred 100)) (IRI 3) = value_nodes ex_g (PSeq [PPred 100; PStar (PPred 100)]) (IRI 3).
 Proof. vm_compute. repeat split. Qed.
